@@ -174,7 +174,7 @@ func (c *CopyCommand) copyOneFile(srcRelPath, destRelPath string, tow io.Writer)
 		return nil
 	}
 
-	if err := updateFileDataWithPointsList(destDB, srcPlDif, now); err != nil {
+	if err := updateDestWithDiff(destDB, srcTsList, srcPlDif, c.From, until, now, c.CopyNaN); err != nil {
 		return err
 	}
 
@@ -184,6 +184,33 @@ func (c *CopyCommand) copyOneFile(srcRelPath, destRelPath string, tow io.Writer)
 
 	if err := destDB.Sync(); err != nil {
 		return err
+	}
+	return nil
+}
+
+// updateDestWithDiff writes the differing points archive by archive, from the
+// finest archive to the coarsest. Writing an archive also propagates aggregates
+// to the coarser ones, so the difference of a coarser archive is taken again
+// right before that archive is written.
+func updateDestWithDiff(destDB *whispertool.Whisper, srcTsList TimeSeriesList, srcPlDif PointsList, from, until, now whispertool.Timestamp, copyNaN bool) error {
+	for archiveID := range destDB.ArchiveInfoList() {
+		pts := srcPlDif[archiveID]
+		if archiveID > 0 && len(srcTsList[archiveID].Values()) > 0 {
+			destTs, err := destDB.FetchFromArchive(archiveID, from, until, now)
+			if err != nil {
+				return err
+			}
+			if destTs != nil && srcTsList[archiveID].EqualTimeRangeAndStep(destTs) {
+				if copyNaN {
+					pts, _ = srcTsList[archiveID].DiffPoints(destTs)
+				} else {
+					pts, _ = srcTsList[archiveID].DiffPointsExcludeSrcNaN(destTs)
+				}
+			}
+		}
+		if err := destDB.UpdatePointsForArchive(pts, archiveID, now); err != nil {
+			return err
+		}
 	}
 	return nil
 }
